@@ -325,6 +325,31 @@ Definition fresh_failure (e : ev) : bool :=
   end.
 Definition total_deaths (es : list ev) : nat := fold_right (fun e a => e_deaths e + a) 0 es.
 
+
+Definition fault_eqb (a b : fault) : bool :=
+  match a, b with
+  | FNone, FNone | FDeadBefore, FDeadBefore | FDiesAfter, FDiesAfter
+  | FTrunc, FTrunc | FRaises, FRaises => true
+  | _, _ => false
+  end.
+
+(* ---- what the wire shows about one operation *)
+(* no fault of any kind was injected into the operation's requests *)
+Definition clean (w : list wire) : bool := forallb (fun x => fault_eqb (w_fault x) FNone) w.
+(* some helper function raised (injected, or a function that raises by itself) *)
+Definition raisedb (w : list wire) : bool :=
+  existsb (fun x => fault_eqb (w_fault x) FRaises ||
+                    match w_kind x with KCall _ CRaise => true | _ => false end) w.
+(* the outcome of an operation nothing happens to *)
+Fixpoint canon_calls (cs : list call) : outcome :=
+  match cs with
+  | [] => OOk []
+  | CRaise :: _ => OExc EHelper
+  | CEcho p :: r => match canon_calls r with OOk l => OOk (p :: l) | o => o end
+  end.
+Definition canon_out (o : op) : outcome :=
+  match o with OpQuery _ cs => canon_calls cs | _ => OOk [] end.
+
 (* ---- decoding of harness cases *)
 Definition sched_of (l : list (N * N * fault)) : N -> N -> fault :=
   fun g k =>
@@ -333,12 +358,6 @@ Definition sched_of (l : list (N * N * fault)) : N -> N -> fault :=
     | None => FNone
     end.
 
-Definition fault_eqb (a b : fault) : bool :=
-  match a, b with
-  | FNone, FNone | FDeadBefore, FDeadBefore | FDiesAfter, FDiesAfter
-  | FTrunc, FTrunc | FRaises, FRaises => true
-  | _, _ => false
-  end.
 Definition exc_code (e : exc) : N :=
   match e with EInternal => 1%N | EHelper => 2%N | EInvalidEnv => 3%N | EChildKey => 4%N | EUnpickling => 5%N end.
 Fixpoint listN_eqb (a b : list N) : bool :=
@@ -397,10 +416,18 @@ Fixpoint all2 {A} (f : A -> A -> bool) (a b : list A) : bool :=
   | _, _ => false
   end.
 
+(* A "dead before send" armed for the request after the last one of a case is seen by the proxy
+   but never met by the parent: a trailing such entry is ignored on both sides. *)
+Definition strip_before (l : list (N * N * N * N * N * list N)) : list (N * N * N * N * N * list N) :=
+  match rev l with
+  | (_, _, _, _, f, _) :: r => if N.eqb f 1 then rev r else l
+  | [] => l
+  end.
+
 (* one harness case: schedule, operations, observed per-operation tuples, observed wire log *)
 Definition check_case (c : list (N * N * fault) * list op *
                            list (N * list N * N * bool * N * N) *
                            list (N * N * N * N * N * list N)) : bool :=
   let '(sch, ops, obs, wobs) := c in
   let '(mo, mw) := run_obs true (sched_of sch) init ops in
-  all2 obs_eqb mo obs && all2 wobs_eqb mw wobs.
+  all2 obs_eqb mo obs && all2 wobs_eqb (strip_before mw) (strip_before wobs).
